@@ -21,7 +21,7 @@ def registry_enumeration(rep):
 def run(tier, seed):
     return run_property(
         "C11", tier, seed, level="other",
-        deductive=[("c11_dunder", None)],
+        deductive=[("c11_dunder", None), ("c03_wrappers", r"constant_forwarded|reaches_op_unchanged|result_returned")],
         enumerations=[registry_enumeration],
         bounded=[("api_bounded.py", ["--check", "C11"])],
         trusted=["NumPy's __array_ufunc__/__array_function__ dispatch protocol"],
